@@ -32,14 +32,14 @@ def gen(ctx):
     for _ in range(70 if ctx.quick else 700):
         nt = r.choice(NUMTYPES); bo = r.choice(['little', 'big'])
         sh = r.choice([(0,), (3,), (2, 2), (0, 2), (2, 1, 3)])
-        letters = [r.choice(['a1', 'aod', 'it2', 'itbad', 't-1', 't0', 't1', 'ms', 'mc', 'ms', 'mpi', 'mpi', 'ro', 'abad', 'set', 'mr', 'mrw'])
+        letters = [r.choice(['a1', 'aod', 'it2', 'itbad', 't-1', 't0', 't1', 'tni', 'ms', 'mc', 'ms', 'mpi', 'mpi', 'ro', 'abad', 'set', 'mr', 'mrw'])
                    for _ in range(r.randint(2, 7 if ctx.quick else 20))]
         A.append(history_case(r, nt, bo, sh, letters, metadata=r.choice([None, {'a': 1}, None])))
     for _ in range(45 if ctx.quick else 450):
         nt = r.choice(NUMTYPES); bo = r.choice(['little', 'big'])
         start = r.choice([None, [1], [2, 0, 1, 3], [1, 2, 3, 4, 5], [1, 1, 1, 1, 1, 1], [3, 2, 1, 0, 1, 2, 3],
                           [2, 1, 0, 0], [1, 0], [1, 2, 3, 0, 0, 0, 0]])
-        letters = [r.choice(['a1', 'a3', 'a0', 'it2', 't-1', 't-1', 't1', 't2', 'aod', 'abad', 'itbad', 'ro', 'ms', 'mc', 'mpi'])
+        letters = [r.choice(['a1', 'a3', 'a0', 'it2', 't-1', 't-1', 't1', 't2', 'tni', 'aod', 'abad', 'itbad', 'ro', 'ms', 'mc', 'mpi'])
                    for _ in range(r.randint(2, 6 if ctx.quick else 16))]
         G.append(rhistory_case(r, nt, bo, r.choice(p04.ATOMS), r.choice(INDEXTYPES), start, letters))
     return A, G
@@ -51,6 +51,19 @@ def run(ctx):
     obsG = ctx.run_impl(G, 'rhistory', timeout=2400)
     raglib.locale_independent(ctx, A, obsA, 'history', 'array-history')
     raglib.locale_independent(ctx, G, obsG, 'rhistory', 'ragged-history')
+    # metadata changed through handles that are not kept
+    T = [dict(kind=k, how=h) for k in ('Array', 'RaggedArray') for h in ('oneliner', 'helper')]
+    for case, ob in zip(T, ctx.run_impl(T, 'temp_handle')):
+        key = dict(scenario='metadata through a temporary handle', **case)
+        if isinstance(ob, dict):
+            ctx.fail('harness-error', key, observed=ob); continue
+        ctx.seen(key); ctx.count('temp-handle'); ctx.evaluations += len(ob)
+        for st in ob:
+            if 'error' in st:
+                ctx.fail('temporary-handle-metadata-failed', key, observed=st)
+            elif not st['same'] or (case['kind'] == 'Array' and st['mentions'] != st['hasmeta']):
+                ctx.fail('readme-stale-after-metadata-change-through-temporary-handle', key,
+                         expected='README == documentation regenerated from a fresh handle', observed=st)
     # re-creation over an existing array with overwrite=True
     O = [dict(old=o, how=h, meta_old=mo, meta_new=mn) for o in ('Array', 'RaggedArray')
          for h in ('asarray', 'create_array', 'copy', 'asraggedarray') for mo in (True, False) for mn in (True, False)]
